@@ -76,10 +76,13 @@ LEVEL = {
                     'view-raw shows a physical slot iff it lies in the requested range.',
             'design_ref': '5 C18',
             'note': _TB + 'Shortest-decimal float formatting is Go\'s own: printed values are parsed back with strconv.ParseFloat before comparison.'},
-    'C20': {'text': 'Theorems: generate refuses an existing file, the header is the requested one, without fill every slot is empty; the file is the batch update of the printed lists. '
-                    'The constraints on the printed lists (complete, bounded, coarse = sum of covered finer slots) are checked on the output of every real run.',
+    'C20': {'text': 'Theorems: generate refuses an existing file, the header is the requested one, without fill every slot is empty; END TO END (C20_file_is_the_generated_lists): for every '
+                    'layout validation accepts, every instant of the clock domain and all generated lists that are complete, the file generate leaves behind, read back archive by archive over the '
+                    'whole retention, is exactly those lists (no empty slot, nothing left from propagation), under the requested header; what gen_ok accepts is bounded and sum-consistent. '
+                    'gen_ok (Model/Generate.v, extracted) is evaluated on the lists of every real run: the command at the wall clock and the generator + per-archive write at explicit instants '
+                    '(aligned or not, last finer slot of a coarser interval, before and after 2^31) through the verif hook.',
             'design_ref': '5 C20',
-            'note': _TB + 'math/rand is an oracle; the wall clock is read by the command (small steps make every alignment of the instant occur).'},
+            'note': _TB + 'math/rand is an oracle (its choices are inputs of the model); hook cmd/verif_hooks.go exposes randomPointsList / updateFileDataWithPointsList with explicit seed and clock.'},
     'C06': {'text': 'Theorems: file length = header + 12 per slot; big-endian header in the classic field order with archives contiguous; offsets of a validated header are the running sums; '
                     'Open on the laid-out bytes returns the same header and every slot. Reader agreement: whispertool, the real go-whisper and both reader models are run on the same bytes '
                     'written by either library; and C06_readers_agree: the reference reader model returns no series exactly when whispertool does and otherwise the very same series, for every clock of the domain and every window not degenerate on a never-written archive.',
